@@ -364,7 +364,7 @@ func (x *runner) lin(class string, addr net.Addr, raw []byte) string {
 	var pmsg string
 	select {
 	case pmsg = <-done:
-	case <-time.After(5 * time.Second):
+	case <-time.After(20 * time.Second):
 		// the monitor goroutine of a real listener would be stuck here for good: every peer stalls
 		x.dead = true
 		x.op(op, "stuck")
